@@ -155,7 +155,7 @@ Copy(h, how) == Push(heap[h], "copy", h) /\ last' = [op |-> [k |-> how], h |-> h
 \* The filesystem sink refuses to overwrite a version it holds (DataSourceError), the memory sink keeps one copy.
 StoreAdd(s, h) ==
   LET o == heap[h] IN
-  /\ \A p \in store[s] : Key(p) = Key(o) => p = o
+  /\ \A s2 \in Stores : \A p \in store[s2] : Key(p) = Key(o) => p = o      \* NoConflict, across the federation: the other store holding the other branch is the same producer error
   /\ IF s = "fs" /\ o \in store[s]
      THEN store' = store /\ last' = [op |-> [k |-> "add", s |-> s], h |-> h, res |-> "DataSourceError"]
      ELSE store' = [store EXCEPT ![s] = @ \cup {o}] /\ last' = [op |-> [k |-> "add", s |-> s], h |-> h, res |-> "ok"]
